@@ -10,6 +10,7 @@ mod fw;
 mod model;
 mod props;
 mod q;
+mod sha1;
 mod subj;
 
 use fw::Tier;
